@@ -25,7 +25,8 @@ def read_voices(m21score, names):
         for nm, v in zip(mine, part.voices):
             evs = []
             for el in v.notesAndRests:
-                evs.append([int(el.pitch.midi) if el.isNote else None, F(el.offset).limit_denominator(10 ** 4),
+                # the onset is the element's place in the SCORE: its offset in the voice plus the voice's own offset in its staff
+                evs.append([int(el.pitch.midi) if el.isNote else None, (F(el.offset) + F(v.offset)).limit_denominator(10 ** 4),
                             F(el.quarterLength).limit_denominator(10 ** 4), el.tie.type if el.tie is not None else None])
             by_name[nm] = evs
     return [by_name.get(nm, []) for nm in names]
@@ -86,6 +87,15 @@ class Mxl(Stream):
                        [["piano__0", [sg.rand_rnote(rng, rest=0, cont=0, rel=0, systems="s")]]]) for c in sc]
             for c in sc:
                 c["toct"] = rng.choice([0, 0, -1]); c["coct"] = rng.choice([0, 0, 1, -1])
+            if i % 6 == 3:
+                # the two ends of the MIDI range: keys 0..11 are written with octave -1, keys 120..127 with octave 9
+                lo = rng.random() < 0.6
+                for c in sc:
+                    c["toct"], c["coct"] = (-5, 0) if lo else (4, 0)
+                    for _, notes in c["parts"]:
+                        for nt in notes:
+                            if nt["kind"] not in "rl":
+                                nt["oct"] = 0; nt["val"] = nt["val"] % 7
             if i % 5 == 0:
                 # zero-length notes and rests (the duration table's .n): written as zero-length elements, still notes and references
                 for c in sc:
@@ -183,5 +193,97 @@ class Mxl(Stream):
             yield {"score": fix_relative(no_gap_continuation(s), across_gaps=True)}
 
 
+class MxlFile(Stream):
+    """the FILE written by Score.to_musicxml, read back with music21's own MusicXML reader: per instrument the same sounding notes (key,
+    onset, tied duration) as the rendering, durations off the sixteenth / eighth-triplet grids included (32nds, sextuplets, quintuplets,
+    septuplets).  Oracle only (the model describes the music21 object, not the writer of the file)."""
+    name = "musicxml_file"
+    checker = None
+    pair = "property oracle on the file written by Score.to_musicxml (music21 writer) and parsed by music21.converter.parse: sounding notes per instrument"
+    quick, thorough = 40, 600
+    UNITS = [F(1, 8), F(1, 6), F(1, 5), F(2, 7), F(1, 4), F(1, 3), F(1, 2), F(1)]
+
+    def gen(self, rng, n):
+        for i in range(n):
+            names = rng.sample(["piano__0", "violin__0", "flute__0", "cello__0"], rng.randrange(1, 3))
+            sc = []
+            for _ in range(rng.randrange(1, 3)):
+                c = {"elem": rng.randrange(7), "fig": rng.choice(["", "6", "7"]), "tdeg": rng.randrange(12), "tmode": rng.choice(sg.MODES),
+                     "toct": 0, "coct": rng.choice([0, 0, -1]), "parts": []}
+                bars = rng.choice([1, 1, 2])
+                for nm in names:
+                    u = rng.choice(self.UNITS)                 # one subdivision per part and chord: k units per beat fill whole beats
+                    per_beat = (F(1) / u) if (F(1) / u).denominator == 1 else F(2) / u
+                    beat_len = u * per_beat
+                    notes, total = [], F(0)
+                    while total < 4 * bars:
+                        left = int(per_beat)
+                        while left > 0:
+                            k = rng.randrange(1, left + 1)
+                            kind = rng.choice("sssshcrl") if notes else rng.choice("sssh")
+                            notes.append({"kind": kind, "val": rng.randrange(7), "oct": rng.choice([0, 0, 1, -1]) if kind not in "rl" else 0,
+                                          "dur": u * k, "amp": 66})
+                            left -= k
+                        total += beat_len
+                    c["parts"].append([nm, notes])
+                sc.append(c)
+            yield {"score": sg.equalize(sc), "sig": [4, 4]}
+
+    def impl(self, case):
+        def f():
+            import music21
+            sc = sg.mk_rscore(case["score"])
+            fd, path = tempfile.mkstemp(suffix=".mxl", dir=core.BUILD); os.close(fd)
+            try:
+                sc.to_musicxml(path, signature=tuple(case["sig"]))
+                back = music21.converter.parse(path, forceSource=True)
+                names = list(dict.fromkeys(n.split("__")[0] for n in sc.instruments))
+                out = {}
+                for name, part in zip(names, back.parts):
+                    # ties are merged here (music21's stripTies leaves some chains across tuplets unmerged): a note marked stop/continue
+                    # prolongs the sounding note of the same key that ends where it starts
+                    evs = []
+                    for n in sorted((x for x in part.recurse().notes if x.isNote), key=lambda x: F(x.getOffsetInHierarchy(back)).limit_denominator(5040)):
+                        on = F(n.getOffsetInHierarchy(back)).limit_denominator(5040)
+                        ql = F(n.duration.quarterLength).limit_denominator(5040)
+                        prev = next((e for e in reversed(evs) if e[0] == int(n.pitch.midi) and e[1] + e[2] == on), None)
+                        # same reading of ties as for the music21 object (merge_ties): a note directly after a note of the same key that
+                        # carries a tie start / continue prolongs it (the exporter marks the middle notes of a chain 'start')
+                        if prev is not None and (prev[3] in ("start", "continue") or (n.tie is not None and n.tie.type in ("stop", "continue"))):
+                            prev[2] += ql
+                            prev[3] = n.tie.type if n.tie is not None else None
+                        else:
+                            evs.append([int(n.pitch.midi), on, ql, n.tie.type if n.tie is not None else None])
+                    out[name] = sorted(e[:3] for e in evs)
+                return {"file": out}
+            finally:
+                os.remove(path)
+        return mlang.guarded(f)
+
+    def spec(self, case, r):
+        if mlang.is_exc(r):
+            return {"sig": "musicxml-file-raises", "msg": str(r)}
+        want = sg.spec_sounding(case["score"], keep_ref=True)
+        for nm, evs in want.items():
+            w = sorted([60 + p, o, d] for p, o, d, v in evs)
+            got = r["file"].get(nm.split("__")[0], [])
+            if got != w:
+                kind = "pitch" if [x[1:] for x in got] == [x[1:] for x in w] else "timing"
+                return {"sig": f"musicxml-file-differs-from-rendering:{kind}", "msg": f"instrument {nm}: file {got[:6]} vs rendered {w[:6]}"}
+        return None
+
+    def hist_keys(self, case, r):
+        return sorted({"unit=" + str(min(F(n["dur"]) for n in notes)) for c in case["score"] for _, notes in c["parts"]})
+
+    def shrink(self, case):
+        sc = case["score"]
+        if len(sc) > 1:
+            yield dict(case, score=sc[:-1]); yield dict(case, score=sc[1:])
+        for i, c in enumerate(sc):
+            if len(c["parts"]) > 1:
+                for j in range(len(c["parts"])):
+                    yield dict(case, score=sg.equalize(sc[:i] + [dict(c, parts=c["parts"][:j] + c["parts"][j + 1:])] + sc[i + 1:]))
+
+
 def streams():
-    return [Mxl()]
+    return [Mxl(), MxlFile()]
